@@ -86,8 +86,8 @@ def render(op, mode: str, feed: List[int], pre: List[str], recv: str = "bz") -> 
 
 
 GETTERS = ["mon.write(bz.get_state())", "mon.write(bz.get_frequency())", "mon.write(bz.get_last_frequency())"]
-PINS = {"bz": 8, "b2": 5}
-DEFAULT_FREQ = {"bz": 440.0, "b2": 880.0}
+PINS = {"bz": 8, "b2": 5, "b3": 8, "b4": 5}
+DEFAULT_FREQ = {"bz": 440.0, "b2": 880.0, "b3": 440.0, "b4": 440.0}
 
 
 def build_two(seq: Sequence[int], recvs: Sequence[str], all_ops) -> dict:
@@ -98,6 +98,19 @@ def build_two(seq: Sequence[int], recvs: Sequence[str], all_ops) -> dict:
         lines += [f'mon.write("call {k}")', call] + [g.replace("bz.", recv + ".") for g in GETTERS]
     src = common.script(["bz = Buzzer(8)", "b2 = Buzzer(5, default_frequency=880)"] + lines, prologue=PRO)
     return {"id": f"two:{tuple(recvs)}:{tuple(seq)}", "src": src, "runs": [{"passes": 0}], "ops": [all_ops[i] for i in seq], "recvs": list(recvs), "placement": "setup"}
+
+
+def build_rebind(seq: Sequence[int], all_ops, same_pin: bool) -> dict:
+    """One name bound to a Buzzer twice: calls before the second declaration drive the first pin, calls after it
+    the second (a new object: fresh state, its own default frequency)."""
+    lines: List[str] = ["bz = Buzzer(8)"]
+    recvs = []
+    for k, idx in enumerate(seq):
+        if k == 1:
+            lines.append("bz = Buzzer(8)" if same_pin else "bz = Buzzer(5)")
+        recvs.append("bz" if k == 0 else ("b3" if same_pin else "b4"))
+        lines += [f'mon.write("call {k}")', render(all_ops[idx], "lit", [], [], "bz")] + GETTERS
+    return {"id": f"rebind:{same_pin}:{tuple(seq)}", "src": common.script(lines, prologue=PRO), "runs": [{"passes": 0}], "ops": [all_ops[i] for i in seq], "recvs": recvs, "placement": "setup"}
 
 
 def build(seq: Sequence[int], all_ops, mode: str, placement: str) -> Optional[dict]:
@@ -138,6 +151,8 @@ def generate(tier: str, only=None) -> Iterator[dict]:
         yield build_two(seq, ("bz", "b2", "bz"), all_ops)
     for seq in itertools.product(small, repeat=2):
         yield build_two(seq, ("b2", "bz"), all_ops)
+    for seq in itertools.chain(itertools.product(small, repeat=2), itertools.product(small[:5], repeat=3)):
+        yield build_rebind(seq, all_ops, False)
     seen = set()
     for seq in seqs:
         if seq in seen:
